@@ -106,7 +106,7 @@ CHECKS["C19"] = cfg(
 CHECKS["C15"] = cfg(
     "C15",
     technique="runtime monitoring: sequential model of both stores over random histories; racing std-thread rounds with per-digest linearizability (Wing-Gong) check over recorded call/return stamps; TSan and Miri flavours",
-    level_text="Random operation histories on JwkMemStore/KeyIdMemstore are compared step by step with a harness model (fresh ids, public-only JWK, RFC 7638 kid recomputed, signatures verifying under their own key and no other, deleted/never-issued ids dead, insert argument validation, second insert per digest refused). Racing rounds on 2-16 threads record client-boundary histories whose per-digest sub-histories must be linearizable (exactly one winner, every get returns it). Thorough adds ThreadSanitizer and Miri runs of the racing rounds.",
+    level_text="Random operation histories on JwkMemStore/KeyIdMemstore are compared step by step with a harness model (fresh ids, public-only JWK, RFC 7638 kid recomputed, signatures verifying under their own key and no other, deleted/never-issued ids dead, insert argument validation, second insert per digest refused). Racing rounds on 2-16 threads record client-boundary histories whose per-digest sub-histories must be linearizable (exactly one winner, every get returns it). A second stage (harness/vhs, bin c15s; quick and thorough) runs the same model, oracles and racing rounds on StrongholdStorage with real snapshot files. Thorough adds ThreadSanitizer and Miri runs of the memstore racing rounds.",
     min={"quick": {"sign_ok": 1000, "cross_key_verifications": 5000, "generate_ok": 500, "insert_rejected": 200, "kid_insert_dup_rejected": 50,
                    "race_single_winner": 1000, "race_overlapping_rounds": 50, "lin_checked": 2000, "lin_checked_with_overlap": 200, "nontrivial": 200,
                    "sh_seq_ops": 500, "sh_sign_ok": 100, "sh_delete_absent_rejected": 30, "sh_race_single_winner": 30},
